@@ -211,13 +211,15 @@ impl FmtAttribute {
         fields: &syn::Fields,
     ) -> Option<(Expr, syn::Ident)> {
         self.transparent_call().map(|(expr, trait_ident)| {
-            let expr = if let Some(field) = fields
+            // An explicit argument is a reference to the field, and `&T: Pointer` prints the
+            // address of that reference, not what `T: Pointer` prints.
+            let is_pointer_arg = trait_ident == "Pointer" && !self.args.is_empty();
+            let expr = match fields
                 .fmt_args_idents()
                 .find(|field| expr == *field || expr == field.unraw())
             {
-                field.into()
-            } else {
-                parse_quote! { &(#expr) }
+                Some(field) if !is_pointer_arg => field.into(),
+                _ => parse_quote! { &(#expr) },
             };
 
             (expr, trait_ident)
